@@ -5,7 +5,7 @@ import json
 import random
 
 from .. import gen, sem
-from ..snapshot import CLASS_NAMES, build, pg_from_json, pg_to_json, snap
+from ..snapshot import CLASS_NAMES, DerivationWrong, build, build_case, pg_from_json, pg_to_json, snap
 
 LEVEL = "exploration"
 RULE = (
@@ -56,7 +56,13 @@ def check_case(ctx, case):
 
     pg = pg_from_json(case["pg"])
     cls = case["cls"]
-    g = build(pg, rng=random.Random(case["bseed"]))
+    try:
+        g, via = build_case(pg, case["bseed"])
+    except DerivationWrong as e:
+        ctx.violate(f"C15/derived-input-differs/{cls}/{e.via}", f"deriving the input graph: {e}", case)
+        ctx.case()
+        return
+    ctx.count(f"via:{via}")
     before = snap(g)
     descs = list(pg["astereo"].values()) + list(pg["bstereo"].values()) + [d for v in list(pg["achange"].values()) + list(pg["bchange"].values()) for d in v.values()]
     flags = []
